@@ -102,6 +102,27 @@ func runReplay(t *testing.T, c *Collector, path string) {
 		}
 		sc.only = &spec
 		sc.crashHistory(spec.Ops, c, map[[40]byte]struct{}{})
+	case "S-fault":
+		var raw2 struct {
+			Case string `json:"case"`
+			N    int64  `json:"fail_call"`
+		}
+		json.Unmarshal(raw, &raw2)
+		for _, tier := range []string{"quick", "thorough"} {
+			for _, fsq := range c17FaultSeqs(tier) {
+				if fsq.name != raw2.Case {
+					continue
+				}
+				_, hit, v := runFaultSeq(t, c, fsq, raw2.N)
+				c.res.Evaluations++
+				fmt.Printf("failed call: %s\n", hit)
+				if v != nil {
+					c.violation(v, 0)
+				}
+				return
+			}
+		}
+		c.res.InfraError = "no sequence for replay"
 	case "A":
 		var sc *ConcScenario
 		for _, x := range concScenariosOf(prop) {
